@@ -347,11 +347,22 @@ where
     SC: Cache<Result<Arc<[u8]>, Arc<PdfError>>>,
     L: Log
 {
-    fn resolve_flags(&self, r: PlainRef, flags: ParseFlags, _depth: usize) -> Result<Primitive> {
+    fn resolve_flags(&self, r: PlainRef, flags: ParseFlags, depth: usize) -> Result<Primitive> {
         let storage = self.storage;
         storage.log.load_object(r);
 
-        storage.resolve_ref(r, flags, self)
+        match storage.resolve_ref(r, flags, self)? {
+            // The value of the object is itself a reference: follow it, but only `depth` times.
+            // Callers recurse on a returned reference, so handing one back would let
+            // `n 0 obj n 0 R endobj` recurse without bound.
+            Primitive::Reference(next) => {
+                if depth == 0 {
+                    bail!("object {} is the start of a too long or cyclic chain of references", r.id);
+                }
+                self.resolve_flags(next, flags, depth - 1)
+            }
+            p => Ok(p)
+        }
     }
 
     fn get<T: Object+DataSize>(&self, r: Ref<T>) -> Result<RcRef<T>> {
